@@ -159,6 +159,7 @@ func DumpIDL(ast *parser.Thrift) (string, error) {
 					sb.writeString(" = ")
 					printConstTypedValue(&sb, ag.Default.TypedValue)
 				}
+				printAnnotation(&sb, ag.Annotations)
 				if i != len(f.Arguments)-1 {
 					sb.writeString(", ")
 				}
